@@ -216,6 +216,9 @@ def lean_stage(prop, tier):
     return res
 
 
+HARNESS_DIR, HARNESS_TMP = None, None
+
+
 def build_harness():
     hdir = os.path.join(VERIF, "harness")
     tmp = None
@@ -237,8 +240,10 @@ def build_harness():
     if os.path.exists(out_bin):
         os.remove(out_bin)
     rc, out, dt = run(["go", "build", "-tags", "verif", "-o", out_bin, "."], cwd=hdir, env=GOENV, timeout=600)
-    if tmp:
-        shutil.rmtree(tmp, ignore_errors=True)
+    # suites that build a second binary themselves (the race-detector test packages) must use the same sources and the
+    # same module replacement: the directory is kept until the suites have run (removed in main's finally)
+    global HARNESS_DIR, HARNESS_TMP
+    HARNESS_DIR, HARNESS_TMP = hdir, tmp
     return rc, out, out_bin
 
 
@@ -247,6 +252,8 @@ def run_suite(hbin, suite, seed, tier, scale=1, timeout=600, extra_env=None):
     if os.path.exists(cov_path):
         os.remove(cov_path)
     env = dict(GOENV, TALLYDRV=os.path.join(LEAN, ".lake", "build", "bin", "tallydrv"), GOMEMLIMIT="6GiB")
+    if HARNESS_DIR:
+        env["VERIF_HARNESS_DIR"] = HARNESS_DIR
     if extra_env:
         env.update(extra_env)
     cmd = [hbin, "-seed", str(seed), "-tier", tier, "-scale", str(scale), "-out", cov_path, suite]
@@ -387,6 +394,8 @@ def main():
     finally:
         if os.path.exists(hbin):
             os.remove(hbin)
+        if HARNESS_TMP:
+            shutil.rmtree(HARNESS_TMP, ignore_errors=True)
 
     verdicts = []  # (VIOLATION|KNOWN, name, payload)
     seen_sig = set()
